@@ -628,7 +628,22 @@ func c10r4(rc *core.RC) {
 				return true
 			})
 			escaped := false
+			// with a deferred release, an explicit release of the same context puts it into the pool twice
 			if len(deferred) > 0 {
+				ast.Inspect(fd.Body, func(m ast.Node) bool {
+					if _, isDefer := m.(*ast.DeferStmt); isDefer {
+						return false
+					}
+					if c, ok := m.(*ast.CallExpr); ok && strings.HasSuffix(core.CalleeName(info, c), ".ReleaseRuntimeContext") && len(c.Args) == 1 && !escaped {
+						if o := core.ObjOf(info, c.Args[0]); o != nil && o == deferred[0] {
+							escaped = true
+							rc.Bad(key, c.Pos(), "%s is released here and again by the deferred ReleaseRuntimeContext: the pool holds the same context twice and hands it to two callers, whose frames, buffer and options then overlap", o.Name())
+						}
+					}
+					return true
+				})
+			}
+			if len(deferred) > 0 && !escaped {
 				for _, r := range cf.Returns() {
 					for _, res := range r.Results {
 						o := core.ObjOf(info, res)
@@ -688,6 +703,124 @@ func c10r5(rc *core.RC) {
 	}
 	if n < 2 {
 		rc.Unknown("encoder/QueryCache-accesses", token.NoPos, "expected a lookup and a store of QueryCache, found %d", n)
+	}
+	// the general form: a field of a struct that carries its own mutex, once it is written under that
+	// mutex anywhere, is read under it everywhere (a lock-free fast path in front of a locked writer
+	// is a torn read as soon as the value is replaced)
+	for _, short := range []string{"encoder", "decoder"} {
+		// struct types with a sync.Mutex / sync.RWMutex field
+		locked := map[*types.Named]bool{}
+		pk := p.Pkg(short)
+		for _, name := range pk.Types.Scope().Names() {
+			tn, ok := pk.Types.Scope().Lookup(name).(*types.TypeName)
+			if !ok {
+				continue
+			}
+			st, ok := tn.Type().Underlying().(*types.Struct)
+			if !ok {
+				continue
+			}
+			for i := 0; i < st.NumFields(); i++ {
+				ts := st.Field(i).Type().String()
+				if ts == "sync.Mutex" || ts == "sync.RWMutex" {
+					if nt, ok := tn.Type().(*types.Named); ok {
+						locked[nt] = true
+					}
+				}
+			}
+		}
+		if len(locked) == 0 {
+			continue
+		}
+		ownerOf := func(info *types.Info, sel *ast.SelectorExpr) (*types.Named, *types.Var) {
+			s := info.Selections[sel]
+			if s == nil || s.Kind() != types.FieldVal {
+				return nil, nil
+			}
+			t := s.Recv()
+			if pt, ok := t.(*types.Pointer); ok {
+				t = pt.Elem()
+			}
+			nt, _ := t.(*types.Named)
+			if nt == nil || !locked[nt] {
+				return nil, nil
+			}
+			v, _ := s.Obj().(*types.Var)
+			return nt, v
+		}
+		type acc struct {
+			fn          string
+			pos         token.Pos
+			write, held bool
+		}
+		accs := map[*types.Var][]acc{}
+		for _, fd := range p.Funcs(short) {
+			if fd.Body == nil {
+				continue
+			}
+			info := p.Info(fd)
+			var held func(ast.Node) bool
+			lhs := map[ast.Expr]bool{}
+			ast.Inspect(fd.Body, func(m ast.Node) bool {
+				if as, ok := m.(*ast.AssignStmt); ok {
+					for _, l := range as.Lhs {
+						l = core.Unparen(l)
+						if ix, ok := l.(*ast.IndexExpr); ok {
+							l = core.Unparen(ix.X)
+						}
+						lhs[l] = true
+					}
+				}
+				return true
+			})
+			var stack []ast.Node
+			ast.Inspect(fd.Body, func(m ast.Node) bool {
+				if m == nil {
+					stack = stack[:len(stack)-1]
+					return true
+				}
+				stack = append(stack, m)
+				sel, ok := m.(*ast.SelectorExpr)
+				if !ok {
+					return true
+				}
+				_, f := ownerOf(info, sel)
+				if f == nil || strings.HasPrefix(f.Type().String(), "sync.") {
+					return true
+				}
+				if held == nil {
+					held = mustHeld(core.BuildCFG(fd.Body, info), info)
+				}
+				var stmt ast.Node
+				for i := len(stack) - 1; i >= 0; i-- {
+					if _, isStmt := stack[i].(ast.Stmt); isStmt {
+						stmt = stack[i]
+						break
+					}
+				}
+				accs[f] = append(accs[f], acc{p.FuncName(fd), sel.Pos(), lhs[sel], stmt != nil && held(stmt)})
+				return true
+			})
+		}
+		for f, as := range accs {
+			guardedWrite := false
+			for _, a := range as {
+				if a.write && a.held {
+					guardedWrite = true
+				}
+			}
+			if !guardedWrite {
+				continue // written only while the object is private (construction), or never
+			}
+			for _, a := range as {
+				key := fmt.Sprintf("%s/locked-field %s", a.fn, f.Name())
+				if a.held {
+					rc.OK(key, a.pos, "accessed with the lock held")
+				} else {
+					rc.Bad(key, a.pos, "%s is written under the struct's mutex elsewhere but is accessed here without it: a reader that runs while the value is being replaced sees a mixture (a new program under an old key)", f.Name())
+				}
+			}
+		}
 	}
 }
 
